@@ -208,6 +208,28 @@ Proof.
   split; [apply Z.div_pos; lia|apply Z.div_lt_upper_bound; [lia|rewrite HALF_sq; lia]].
 Qed.
 
+(* small arithmetic facts, proved in a small context *)
+Lemma est_x w1 w2 : 0 <= w1 < HALF -> 0 <= w2 < B -> 0 <= w1 * B + w2 < HALF * B.
+Proof. intros. pose proof B_pos. nia. Qed.
+Lemma est_bounds w1 w2 h : 0 <= w1 < HALF -> 0 <= w2 < B -> 0 <= h < HALF -> 0 <= (w1 * B + w2) * HALF + h < B * B.
+Proof. intros H1 H2 H3. pose proof (est_x w1 w2 H1 H2). pose proof HALF_sq. assert (0 < HALF) by reflexivity. nia. Qed.
+Lemma est_pos v1 v2 h : 1 <= v1 -> 0 <= v2 -> 0 <= h -> 1 <= (v1 * B + v2) * HALF + h.
+Proof. intros. pose proof B_pos. assert (0 < HALF) by reflexivity. nia. Qed.
+Lemma est_plain w1 w2 : 0 <= w1 < B -> 0 <= w2 < B -> 0 <= w1 * B + w2 < B * B.
+Proof. intros. nia. Qed.
+Lemma est_plain_pos v1 v2 : 1 <= v1 -> 0 <= v2 -> 1 <= v1 * B + v2.
+Proof. intros. pose proof B_pos. nia. Qed.
+Lemma est_big w1 w2 h : 1 <= w1 -> 0 <= w2 -> 0 <= h -> B * HALF <= (w1 * B + w2) * HALF + h.
+Proof. intros. pose proof B_pos. assert (0 < HALF) by reflexivity. nia. Qed.
+Lemma est_h v1 h : 0 <= v1 < HALF -> 0 <= h < HALF -> 0 <= v1 * HALF + h < B.
+Proof. intros. pose proof HALF_sq. nia. Qed.
+Lemma est_h_pos v1 h : 1 <= v1 -> 0 <= h -> 1 <= v1 * HALF + h.
+Proof. intros. assert (0 < HALF) by reflexivity. nia. Qed.
+Lemma B_le_BH : B <= B * HALF.
+Proof. pose proof B_pos. assert (1 <= HALF) by (unfold HALF; lia). nia. Qed.
+Lemma plain_big w1 w2 : 1 <= w1 -> 0 <= w2 -> B <= w1 * B + w2.
+Proof. intros. pose proof B_pos. nia. Qed.
+
 Lemma qr_guess_good a1 b1 d off :
   words a1 -> words b1 -> (2 <= hi b1)%nat -> val b1 <= val a1 ->
   qr_guess a1 b1 (hi a1) (hi b1) = (d, off) ->
@@ -248,17 +270,18 @@ Proof.
       destruct (top3 a1 alen Ha eq_refl ltac:(lia)) as (la3 & Ea3 & Hla3).
       destruct (top3 b1 blen Hb eq_refl ltac:(lia)) as (lb3 & Eb3 & Hlb3).
       fold w1 w2 w3 in Ea3. fold v1 v2 v3 in Eb3.
-      rewrite !lu2h by nia.
+      rewrite (lu2h (w1 * B + w2)) by (try apply est_x; lia).
+      rewrite (lu2h (v1 * B + v2)) by (try apply est_x; lia).
       exists ((w1 * B + w2) * HALF + w3 / HALF), ((v1 * B + v2) * HALF + v3 / HALF),
              (B ^ Z.of_nat (alen - 3) * HALF), (B ^ Z.of_nat (blen - 3) * HALF), la3, lb3.
       assert (0 < B ^ Z.of_nat (blen - 3)) by (apply Z.pow_pos_nonneg; [reflexivity|lia]).
       split; [reflexivity|]. split; [rewrite Ea3; ring|]. split; [exact Hla3|].
-      split; [rewrite Eb3; ring|]. split; [exact Hlb3|]. split; [nia|]. split; [nia|].
-      split; [|nia]. rewrite (pow_split (alen - 3) (blen - 3)) by lia.
+      split; [rewrite Eb3; ring|]. split; [exact Hlb3|]. split; [apply est_pos; lia|]. split; [apply est_bounds; lia|].
+      split; [|apply Z.mul_pos_pos; assumption]. rewrite (pow_split (alen - 3) (blen - 3)) by lia.
       replace (alen - 3 - (blen - 3))%nat with (alen - blen)%nat by lia. ring.
     - exists (w1 * B + w2), (v1 * B + v2), (B ^ Z.of_nat (alen - 2)), (B ^ Z.of_nat (blen - 2)), la, lb.
       split; [reflexivity|]. split; [rewrite Ea; ring|]. split; [exact Hla|].
-      split; [rewrite Eb; ring|]. split; [exact Hlb|]. split; [nia|]. split; [nia|].
+      split; [rewrite Eb; ring|]. split; [exact Hlb|]. split; [apply est_plain_pos; lia|]. split; [apply est_plain; lia|].
       split; [|exact Pb]. rewrite (pow_split (alen - 2) (blen - 2)) by lia.
       replace (alen - 2 - (blen - 2))%nat with (alen - blen)%nat by lia. reflexivity. }
   destruct E1 as (dn & dd & Sa & Sb & ra & rb & Eq & EA & Hra & EB & Hrb & Hdd & Hdn & HSab & HSb).
@@ -271,14 +294,16 @@ Proof.
     apply pair_equal_spec in H. destruct H as [<- <-].
     assert (Hd1 : 1 <= dn / dd) by (pose proof (Z.div_pos dn dd ltac:(lia) ltac:(lia)); lia).
     split; [lia|]. split.
-    - split; [exact Hd1|]. pose proof (Z.div_le_upper_bound dn dd dn ltac:(lia) ltac:(nia)). lia.
+    - split; [exact Hd1|]. assert (dn / dd <= dn); [|lia].
+      apply Z.div_le_upper_bound; [lia|]. clear - Hdd Hdn. nia.
     - replace (alen - blen + 1 - 1)%nat with (alen - blen)%nat by lia.
       apply (estimate_good (val a1) (val b1) dn dd ra rb Sa Sb); try assumption. }
   (* retry one position lower *)
   assert (Hlt : dn < dd) by (apply Z.div_small_iff in Hd0; lia).
   assert (Hgt : (blen < alen)%nat).
   { destruct (Nat.eq_dec alen blen) as [E|]; [|lia]. exfalso.
-    rewrite E, Nat.sub_diag in HSab. cbn [Z.of_nat] in HSab. rewrite Z.pow_0_r, Z.mul_1_r in HSab. subst Sa. nia. }
+    rewrite E, Nat.sub_diag in HSab. cbn [Z.of_nat] in HSab. rewrite Z.pow_0_r, Z.mul_1_r in HSab. subst Sa.
+    clear - EA Hra EB Hrb Hlt Hle HSb Hdd Hdn. nia. }
   assert (E2 : exists dn2 dd2 Sa2 Sb2 ra2 rb2,
     (let '(dn0, dd0) :=
        if (w1 <? HALF) && (v1 <? HALF)
@@ -290,19 +315,23 @@ Proof.
     - apply andb_prop in R2. destruct R2 as [Rw Rv]. apply Z.ltb_lt in Rw, Rv.
       destruct (top3 a1 alen Ha eq_refl ltac:(lia)) as (la3 & Ea3 & Hla3). fold w1 w2 w3 in Ea3.
       destruct (top2h b1 blen Hb eq_refl Hbl) as (lbh & Ebh & Hlbh). fold v1 v2 in Ebh.
-      rewrite lu2h by nia.
-      rewrite (lu_small (v1 * HALF)) by (rewrite B2_eq; nia).
-      rewrite (lu_small (v1 * HALF + v2 / HALF)) by (rewrite B2_eq; nia).
+      rewrite (lu2h (w1 * B + w2)) by (try apply est_x; lia).
+      pose proof (est_h v1 (v2 / HALF) ltac:(lia) V2h) as Hvh.
+      rewrite (lu_small (v1 * HALF)) by (rewrite B2_eq; clear - Rv V1p HB HH HS; nia).
+      rewrite (lu_small (v1 * HALF + v2 / HALF)) by (rewrite B2_eq; clear - Hvh HB; nia).
       exists ((w1 * B + w2) * HALF + w3 / HALF), (v1 * HALF + v2 / HALF),
              (B ^ Z.of_nat (alen - 3) * HALF), (B ^ Z.of_nat (blen - 2) * HALF), la3, lbh.
       split; [reflexivity|]. split; [rewrite Ea3; ring|]. split; [exact Hla3|].
-      split; [rewrite Ebh; ring|]. split; [exact Hlbh|]. split; [nia|]. split; [nia|].
-      split; [|nia]. rewrite (pow_split (alen - 3) (blen - 2)) by lia.
+      split; [rewrite Ebh; ring|]. split; [exact Hlbh|]. split; [apply est_h_pos; lia|].
+      split; [split; [|apply est_bounds; lia]|].
+      { pose proof (est_big w1 w2 (w3 / HALF) W1p ltac:(lia) ltac:(lia)). pose proof B_le_BH. lia. }
+      split; [|apply Z.mul_pos_pos; assumption]. rewrite (pow_split (alen - 3) (blen - 2)) by lia.
       replace (alen - 3 - (blen - 2))%nat with (alen - blen - 1)%nat by lia. ring.
     - destruct (top1 b1 blen Hb eq_refl Hbl) as (lb1 & Eb1 & Hlb1). fold v1 in Eb1.
       exists (w1 * B + w2), v1, (B ^ Z.of_nat (alen - 2)), (B ^ Z.of_nat (blen - 1)), la, lb1.
       split; [reflexivity|]. split; [rewrite Ea; ring|]. split; [exact Hla|].
-      split; [rewrite Eb1; ring|]. split; [exact Hlb1|]. split; [lia|]. split; [nia|].
+      split; [rewrite Eb1; ring|]. split; [exact Hlb1|]. split; [lia|].
+      split; [split; [pose proof (plain_big w1 w2 W1p ltac:(lia)); lia|apply est_plain; lia]|].
       split; [|apply Z.pow_pos_nonneg; [reflexivity|lia]].
       rewrite (pow_split (alen - 2) (blen - 1)) by lia.
       replace (alen - 2 - (blen - 1))%nat with (alen - blen - 1)%nat by lia. reflexivity. }
@@ -314,8 +343,118 @@ Proof.
   apply pair_equal_spec in H. destruct H as [<- <-].
   assert (Hd1 : 1 <= dn2 / dd2) by (apply Z.div_le_lower_bound; lia).
   split; [lia|]. split.
-  - split; [exact Hd1|]. pose proof (Z.div_le_upper_bound dn2 dd2 dn2 ltac:(lia) ltac:(nia)). lia.
+  - split; [exact Hd1|]. assert (dn2 / dd2 <= dn2); [|lia].
+    apply Z.div_le_upper_bound; [lia|]. clear - Hdd2 Hdn2. nia.
   - replace (alen - blen + 1 - 1 - 1)%nat with (alen - blen - 1)%nat by lia.
     apply (estimate_good (val a1) (val b1) dn2 dd2 ra2 rb2 Sa2 Sb2); try assumption.
     apply Z.pow_pos_nonneg; [reflexivity|lia].
+Qed.
+
+(** ** the loop terminates *)
+Lemma qr_loop_mf_mono : forall fuel mf mf' alen0 a1 b1 blen q sign r, (mf <= mf')%nat ->
+  qr_loop fuel mf alen0 a1 b1 blen q sign = Some r -> qr_loop fuel mf' alen0 a1 b1 blen q sign = Some r.
+Proof.
+  induction fuel as [|f IH]; intros mf mf' alen0 a1 b1 blen q sign r Hle H; cbn [qr_loop] in *.
+  - exact H.
+  - destruct (compare_abs (snd a1) b1 >=? 0); [|exact H].
+    destruct (qr_guess (snd a1) b1 (hi (snd a1)) blen) as [d off].
+    match type of H with context [bignum_mul mf ?u ?v] =>
+      destruct (bignum_mul mf u v) as [y|] eqn:E; [|discriminate];
+      rewrite (mul_fuel_le mf' mf u v y Hle E) end.
+    destruct (if sign <? 0 then _ else _) as [a2 q2]. cbv beta iota in *.
+    apply (IH mf); assumption.
+Qed.
+
+Lemma wf_big_val_abs z : wf_big z -> val (snd z) = Z.abs (bval z).
+Proof.
+  destruct z as [s d]. intros (Hs & Hd & _). cbn [fst snd] in *. unfold bval. cbn [fst snd].
+  pose proof (val_nonneg d Hd). destruct Hs as [-> | ->]; lia.
+Qed.
+
+Lemma qr_loop_total : forall n alen0 a1 b1 q sign,
+  wf_big a1 -> words b1 -> b1 <> [] -> (2 <= hi b1)%nat -> wf_num q ->
+  (sign = 1 \/ sign = -1) -> fst a1 = sign -> (hi (snd a1) <= alen0)%nat ->
+  val (snd a1) < Z.of_nat n ->
+  exists fuel mf res, qr_loop fuel mf alen0 a1 b1 (hi b1) q sign = Some res.
+Proof.
+  induction n as [|n IH]; intros alen0 a1 b1 q sign Ha1 Hb1 Hnb Hbl Hq Hs Hfs Hlen Hn.
+  - pose proof (val_nonneg _ (proj1 (proj2 Ha1))). lia.
+  - destruct (compare_abs (snd a1) b1 >=? 0) eqn:Hc.
+    2:{ exists 0%nat, 0%nat, (a1, q, sign). cbn [qr_loop]. rewrite Hc. reflexivity. }
+    pose proof Ha1 as (Hsa & Hwa & Hna).
+    destruct (compare_abs_spec (snd a1) b1 Hwa Hb1 Hna Hnb) as [_ Hlt].
+    assert (Hle : val b1 <= val (snd a1)) by lia.
+    destruct (qr_guess (snd a1) b1 (hi (snd a1)) (hi b1)) as [d off] eqn:Eg.
+    destruct (qr_guess_good (snd a1) b1 d off Hwa Hb1 Hbl Hle Eg) as (Hoff & Hd & Hy).
+    pose proof (guess_val alen0 off d ltac:(lia) ltac:(lia)) as Vx. cbv zeta in Vx.
+    set (x0 := setnth (repeat 0 alen0) off ((d / B) mod B)) in *.
+    set (x := setnth x0 (off - 1) (d mod B)) in *.
+    assert (Hx : wf_big (1, x)).
+    { assert (words x0 /\ length x0 = alen0) as [Hx0 Hl0].
+      { unfold x0. split; [apply words_setnth; [apply words_repeat0|apply isword_modB]|].
+        rewrite setnth_length, repeat_length. reflexivity. }
+      split; [cbn [fst]; auto|]. cbn [snd].
+      split; [unfold x; apply words_setnth; [exact Hx0|apply isword_modB]|].
+      apply nonempty_length. unfold x. rewrite setnth_length. lia. }
+    assert (Hb1w : wf_big (1, b1)) by (split; [cbn [fst]; auto|split; assumption]).
+    destruct (karatsuba_total (1, b1) (1, x) Hb1w Hx) as (mfy & y & Ey & Vy & Wy).
+    unfold bval at 2 3 in Vy. cbn [fst snd] in Vy. rewrite !Z.mul_1_l, Vx in Vy.
+    set (A := val (snd a1)) in *.
+    assert (Ha1v : bval a1 = sign * A) by (unfold bval, A; rewrite Hfs; reflexivity).
+    set (step := if sign <? 0 then (bignum_add a1 y, num_sub q (Big 1 x))
+                 else (bignum_sub a1 y, num_add q (Big 1 x))).
+    assert (Hstep : wf_big (fst step) /\ wf_num (snd step) /\ Z.abs (bval (fst step)) < A).
+    { unfold step. destruct (Z.ltb_spec sign 0); cbn [fst snd].
+      - destruct (bignum_add_spec a1 y Ha1 Wy) as [V W].
+        destruct (num_sub_spec q (Big 1 x) Hq Hx) as (_ & _ & W2); [cbn [is_fix]; congruence|].
+        split; [exact W|]. split; [exact W2|]. rewrite V, Vy, Ha1v. assert (sign = -1) as -> by lia. lia.
+      - destruct (bignum_sub_spec a1 y Ha1 Wy) as [V W].
+        destruct (num_add_spec q (Big 1 x) Hq Hx) as (_ & _ & W2).
+        split; [exact W|]. split; [exact W2|]. rewrite V, Vy, Ha1v. assert (sign = 1) as -> by lia. lia. }
+    destruct step as [a2 q2] eqn:Estep. cbn [fst snd] in Hstep. destruct Hstep as (Wa2 & Wq2 & Habs).
+    set (a3 := if negb (fst a2 =? sign) then (- sign, snd a2) else a2).
+    set (sign' := if negb (fst a2 =? sign) then - sign else sign).
+    assert (Wa3 : wf_big a3 /\ fst a3 = sign' /\ snd a3 = snd a2 /\ (sign' = 1 \/ sign' = -1)).
+    { unfold a3, sign'. destruct (Z.eqb_spec (fst a2) sign); cbn [negb].
+      - split; [exact Wa2|]. split; [assumption|]. split; [reflexivity|exact Hs].
+      - destruct Wa2 as (H1 & H2 & H3). split; [split; [cbn [fst]; lia|split; assumption]|].
+        split; [reflexivity|]. split; [reflexivity|lia]. }
+    destruct Wa3 as (Wa3 & Hfs3 & Hsnd3 & Hs3).
+    assert (Hv3 : val (snd a3) < A) by (rewrite Hsnd3, (wf_big_val_abs a2 Wa2); exact Habs).
+    destruct (IH alen0 a3 b1 q2 sign' Wa3 Hb1 Hnb Hbl Wq2 Hs3 Hfs3) as (fuel & mf & res & Hr).
+    { pose proof (hi_le_of_val (snd a1) (snd a3) Hwa ltac:(apply Wa3) ltac:(fold A; lia)). lia. }
+    { lia. }
+    set (M := Nat.max mf mfy).
+    exists (S fuel), M, res. cbn [qr_loop]. rewrite Hc, Eg.
+    assert (Hoff0 : (0 <? off)%nat = true) by (apply Nat.ltb_lt; lia). rewrite Hoff0.
+    fold x0. fold x. rewrite (mul_fuel_le M mfy _ _ _ ltac:(unfold M; lia) Ey).
+    fold step. rewrite Estep. cbv beta iota. fold a3 sign'.
+    apply (qr_loop_mf_mono fuel mf M); [unfold M; lia|exact Hr].
+Qed.
+
+(** total correctness of quot_rem *)
+Theorem quot_rem_total x y : wf_big x -> wf_big y -> bval y <> 0 ->
+  exists fuel mf q r, quot_rem fuel mf x y = QR q r
+    /\ nval q = Z.quot (bval x) (bval y) /\ nval r = Z.rem (bval x) (bval y) /\ wf_num q /\ wf_num r.
+Proof.
+  intros Hx Hy Hnz.
+  assert (H : exists fuel mf q r, quot_rem fuel mf x y = QR q r).
+  { destruct x as [sa a], y as [sb b].
+    pose proof Hx as (Hsa & Ha & Hna). pose proof Hy as (Hsb & Hb & Hnb). cbn [fst snd] in *.
+    unfold quot_rem. destruct (Nat.eqb_spec (hi b) 1) as [Hb1|Hb1]; cbn [andb].
+    - pose proof (hi1_val b Hb Hnb Hb1) as Hvb. unfold wd. rewrite <- Hvb.
+      destruct (Z.eqb_spec (val b) 0) as [Hz|_].
+      + exfalso. apply Hnz. unfold bval. cbn [fst snd]. rewrite Hz. ring.
+      + exists 0%nat, 0%nat. destruct (fxdiv a (val b) 0) as [qs r0]. eexists _, _. reflexivity.
+    - pose proof (hi_ge1 b).
+      destruct (qr_loop_total (S (Z.to_nat (val a))) (length a) (1, a) b (Fix 0) 1) as (fuel & mf & res & Hr);
+        try assumption; try reflexivity; try (cbn [fst snd]; auto).
+      + split; [cbn [fst]; auto|split; assumption].
+      + lia.
+      + apply hi_le_length. exact Hna.
+      + pose proof (val_nonneg a Ha). lia.
+      + exists fuel, mf. rewrite Hr. destruct res as [[a1 q1] sign].
+        destruct ((sign <? 0) && negb _); eexists _, _; reflexivity. }
+  destruct H as (fuel & mf & q & r & H). exists fuel, mf, q, r. split; [exact H|].
+  destruct (quot_rem_spec fuel mf x y q r Hx Hy H) as (_ & H1 & H2 & H3 & H4). tauto.
 Qed.
